@@ -53,6 +53,10 @@ class ScriptGen:
                 items.append(('spawn', child))
                 self.scripts[child] = self.script(child, depth + 1, top)
                 self.feats.add('nested-spawn')
+            elif c < 0.975 and 'terminate' not in self.avoid:
+                # the script gives itself up; what follows in the same slice may still run, nothing after its next scheduling point
+                items.append(('selfterm',))
+                self.feats.add('terminate-self')
             else:
                 k += 1
                 items.append(('trace', k))
@@ -74,6 +78,8 @@ class ScriptGen:
                 out.append('diag_log str [%d, "pre", %d]; diag_log str [%d, "done", %d, scriptDone vh_h%d]' % (sid, it[1], sid, it[1], it[1]))
             elif it[0] == 'term':
                 out.append('if (!scriptDone vh_h%d) then { terminate vh_h%d; diag_log str [%d, "term", %d] }' % (it[1], it[1], sid, it[1]))
+            elif it[0] == 'selfterm':
+                out.append('terminate _thisScript; diag_log str [%d, "term", %d]' % (sid, sid))
             elif it[0] == 'spawn':
                 out.append('vh_h%d = [] spawn { %s }' % (it[1], self.emit(it[1])))
         return '; '.join(out)
@@ -225,7 +231,13 @@ def analyse(chk, gen, st, label, replay, budget):
         want = [it[1] for it in items if it[0] == 'trace']
         got = [int(rest) for seq, s2, rest in events if s2 == sid and re.fullmatch(r'\d+', rest)]
         if sid in terminated_at:
-            late = [(seq, rest) for seq, s2, rest in events if s2 == sid and seq > terminated_at[sid]]
+            # a script that terminates itself still finishes the slice it is in: its statements count as late from the end of that slice on
+            bound = terminated_at[sid]
+            for s_ in slices:
+                if s_['ctx'] == ctx_of.get(sid) and s_['seq0'] <= bound <= s_['seq1']:
+                    bound = s_['seq1']
+                    chk.count('self_terminations')
+            late = [(seq, rest) for seq, s2, rest in events if s2 == sid and seq > bound]
             chk.count('terminations')
             if late:
                 chk.violation('terminated-script-continued', '%s: script %d executed %d more statements after it was terminated' % (label, sid, len(late)), replay)
